@@ -415,6 +415,41 @@ fn random_bytes_strategy() -> BoxedStrategy<(Vec<u8>, usize)> {
         1 => (0..65usize).prop_map(|n| vec![0x00; n]),
         1 => (0..65usize).prop_map(|n| vec![0xFF; n]),
         1 => (0..30usize, proptest::sample::select(vec![0x7fu8, 0x80, 0xbf, 0xc0, 0xc1, 0xc4])).prop_map(|(n, v)| vec![v; n]),
+        // hostile numbers at every bit offset: 0..23 random bits, then a number in one of the
+        // self-delimiting forms with an extreme value - "1" + length octet k + k octets of FF (the
+        // long form of normally-small numbers / lengths, k = 8 gives 2^64-1), a bare length octet
+        // k + k x FF (semi-constrained / unconstrained numbers), k x FF + 7F, fragment headers
+        2 => (proptest::collection::vec(any::<bool>(), 0..24), 0..5u8, 1..10usize, proptest::collection::vec(any::<u8>(), 0..6)).prop_map(|(prefix, form, k, tail)| {
+            let mut bits = prefix;
+            let push_byte = |bits: &mut Vec<bool>, b: u8| (0..8).for_each(|i| bits.push(b & (0x80 >> i) != 0));
+            match form {
+                0 => {
+                    bits.push(true);
+                    push_byte(&mut bits, k as u8);
+                    (0..k).for_each(|_| push_byte(&mut bits, 0xFF));
+                }
+                1 => {
+                    push_byte(&mut bits, k as u8);
+                    (0..k).for_each(|_| push_byte(&mut bits, 0xFF));
+                }
+                2 => {
+                    push_byte(&mut bits, k as u8);
+                    push_byte(&mut bits, 0x80);
+                    (1..k).for_each(|_| push_byte(&mut bits, 0x00));
+                }
+                3 => {
+                    (0..k).for_each(|_| push_byte(&mut bits, 0xFF));
+                    push_byte(&mut bits, 0x7F);
+                }
+                _ => {
+                    push_byte(&mut bits, 0xC0 | (k as u8 % 5));
+                    push_byte(&mut bits, 0xBF);
+                    push_byte(&mut bits, 0xFF);
+                }
+            }
+            tail.iter().for_each(|b| push_byte(&mut bits, *b));
+            vcore::bitmodel::bytes_of(&bits)
+        }),
     ];
     (bytes, any::<u16>(), 0..3u8)
         .prop_map(|(b, t, mode)| {
@@ -425,7 +460,7 @@ fn random_bytes_strategy() -> BoxedStrategy<(Vec<u8>, usize)> {
         .boxed()
 }
 
-const RULE: &str = "targets: UperReader::read::<T> and ProtobufReader::read::<T> for every type of the compiled zoo, and the DER reader primitives (identifier, length, boolean, integer_i64/u64, Integer<T>/Boolean through BasicReader). Inputs (proptest): (a) random byte strings (0..64 bytes, random / 00 / FF / boundary fills) with a random declared bit length; (b) valid encodings of generated values with 1..3 faults from {truncate to a bit, flip a bit, insert / delete / overwrite a byte with a boundary value, duplicate a chunk}. Oracle per case: no panic; on Ok position <= declared length and identical result when every bit beyond the declared length is flipped and bytes are appended (over-read detector); bits_remaining() callable afterwards; peak allocation <= 64 MiB + 64 KiB x input bytes (counting global allocator); a case running > 10 s stops the worker and is confirmed 3x in isolation before it is reported. Non-trivial: the decoder consumed >= 8 bits, or the input is a mutated valid encoding; distinct = hash of (target, type, bytes, bit_len).";
+const RULE: &str = "targets: UperReader::read::<T> and ProtobufReader::read::<T> for every type of the compiled zoo, and the DER reader primitives (identifier, length, boolean, integer_i64/u64, Integer<T>/Boolean through BasicReader). Inputs (proptest): (a) random byte strings (0..64 bytes, random / 00 / FF / boundary fills, and hostile self-delimiting numbers - long-form normally-small numbers, length-prefixed integers with k x FF, fragment headers - behind 0..23 random bits) with a random declared bit length; (b) valid encodings of generated values with 1..3 faults from {truncate to a bit, flip a bit, insert / delete / overwrite a byte with a boundary value, duplicate a chunk}. Oracle per case: no panic; on Ok position <= declared length and identical result when every bit beyond the declared length is flipped and bytes are appended (over-read detector); bits_remaining() callable afterwards; peak allocation <= 64 MiB + 64 KiB x input bytes (counting global allocator); a case running > 10 s stops the worker and is confirmed 3x in isolation before it is reported. Non-trivial: the decoder consumed >= 8 bits, or the input is a mutated valid encoding; distinct = hash of (target, type, bytes, bit_len).";
 
 pub fn run(ctx: Ctx) -> i32 {
     let report = Report::new(ctx.clone(), RULE);
